@@ -63,6 +63,17 @@ func init() {
 			p.Jobs = append(p.Jobs, Job{Harness: "opset13.H_C15_registry", Case: map[string]interface{}{"op": name}})
 		}
 		p.Jobs = append(p.Jobs, Job{Harness: "opset13.H_C15_unknown", Case: map[string]interface{}{}})
+		// what the gates are handed inside a Model: an omitted optional input (empty name) stays absent even when an
+		// earlier node left an output unnamed (the empty name is not a value)
+		for _, g := range [][]gnode{
+			{{"GRU", "X,W3,R3", ",yh", "hidden_size=2"}, {"Squeeze", "yh,", "o", ""}},
+			{{"LSTM", "X,W4,R4", ",,yc", "hidden_size=2"}, {"Squeeze", "yc,", "s", ""}, {"Gemm", "s,s,", "o", "transB=1"}},
+			{{"RNN", "X,W1,R1", ",yh", "hidden_size=2"}, {"RNN", "X,W1,R1,,,yh", "o,oh", "hidden_size=2"}},
+		} {
+			cm := graphCase(g, []string{"X:2,2,2"}, []string{"W3:1,6,2", "R3:1,6,2", "W4:1,8,2", "R4:1,8,2", "W1:1,2,2", "R1:1,2,2"}, []string{"o"}, []string{"X"})
+			cm["evaluates"] = true
+			p.Jobs = append(p.Jobs, Job{Harness: "gonnx.H_C01", Case: cm})
+		}
 		p.Bounds = []string{
 			"all registered operators (names and arities read from /repo on this run) x input count 0..max+2 (Concat 0..4 and 7, 8, 9, 16, 17) x nil at every subset of the optional positions x list passed with/without spare capacity holding stale tensors",
 			"the element type at every non-nil position is ONE symbolic variable over the 14-type universe: each case decides 14^k type combinations in a single run",
